@@ -134,13 +134,34 @@ inductive BlockingMode
   | refused
 deriving DecidableEq, Repr
 
-/-- `agd.Ratelimiter` as observable through `Config()`. -/
+/-- `agd.Ratelimiter`: what `Config()` reports and, for the custom limiter, the response-size
+estimate it was BUILT with (`NewDefaultRatelimiter(conf, respSzEst)`), which `Config()` does not
+report and the cache file therefore does not hold. -/
 inductive Ratelimiter
   | global
-  /-- `*agd.DefaultRatelimiter`: it keeps subnets and RPS only, `NewDefaultRatelimiter` ignores
-  `RatelimitConfig.Enabled` and `Config()` always reports `Enabled: true` -/
-  | default (subnets : List (Nat × Nat)) (rps : Nat)
+  /-- `*agd.DefaultRatelimiter`: it keeps subnets, RPS and the estimate, `NewDefaultRatelimiter`
+  ignores `RatelimitConfig.Enabled` and `Config()` always reports `Enabled: true` -/
+  | default (subnets : List (Nat × Nat)) (rps : Nat) (est : Nat)
 deriving DecidableEq, Repr
+
+/-- `(*DefaultRatelimiter).CountResponses`: a response of `len` bytes is counted as
+`len / respSzEst` requests (`none`: the division by a zero estimate panics); the global limiter
+counts nothing. -/
+def Ratelimiter.countedAs : Ratelimiter → Nat → Option Nat
+  | .global, _ => some 0
+  | .default _ _ est, len => if est = 0 then none else some (len / est)
+
+/-- What the probe of the harness observes on a fresh second: a response of `len` bytes is counted,
+then `tries` requests are checked; the custom limiter lets `rps` requests per second pass. -/
+def Ratelimiter.passesAfter : Ratelimiter → Nat → Nat → Option Nat
+  | .global, _, _ => some 0
+  | .default sn rps est, len, tries =>
+    ((Ratelimiter.default sn rps est).countedAs len).map fun k => min tries (rps - k)
+
+/-- The estimate of every custom limiter is `est`. -/
+def Ratelimiter.EstIs (est : Nat) : Ratelimiter → Prop
+  | .global => True
+  | .default _ _ e => e = est
 
 structure Profile where
   -- FilterConfig.Custom
@@ -326,7 +347,7 @@ def scheduleToPb (c : Schedule) : PbSchedule :=
 `RatelimitConfig`, the default limiter's config always has `Enabled: true`. -/
 def ratelimiterToPb : Ratelimiter → Option PbRatelimiter
   | .global => some { cidr := [], rps := 0, enabled := false }
-  | .default subnets rps => some { cidr := subnets, rps := rps, enabled := true }
+  | .default subnets rps _ => some { cidr := subnets, rps := rps, enabled := true }
 
 /-- `durationpb.New`. -/
 def durationToPb (d : Int) : PbDuration :=
@@ -399,16 +420,17 @@ def scheduleFromPb (x : PbSchedule) : Schedule :=
     wed := x.wed.map dayFromPb, thu := x.thu.map dayFromPb, fri := x.fri.map dayFromPb,
     sat := x.sat.map dayFromPb, tz := x.tz }
 
-/-- `(*Ratelimiter).toInternal`. -/
-def ratelimiterFromPb : Option PbRatelimiter → Ratelimiter
+/-- `(*Ratelimiter).toInternal(respSzEst)`: the estimate is the one the file-cache storage was
+created with (`filecachepb.New(logger, path, respSzEst)`). -/
+def ratelimiterFromPb (est : Nat) : Option PbRatelimiter → Ratelimiter
   | none => .global
-  | some x => if x.enabled then .default x.cidr x.rps else .global
+  | some x => if x.enabled then .default x.cidr x.rps est else .global
 
 /-- `(*durationpb.Duration).AsDuration` (its overflow saturation cannot trigger on values
 produced by `durationpb.New` from an int64). -/
 def durationFromPb (x : PbDuration) : Int := x.secs * 1000000000 + x.nanos
 
-def profileFromPb (x : PbProfile) : Option Profile :=
+def profileFromPb (est : Nat) (x : PbProfile) : Option Profile :=
   (bmFromPb x.blockingMode).map fun bm =>
   { customId := x.customId, customUpdSec := x.customUpdSec, customUpdNsec := x.customUpdNsec,
     customRules := x.customRules, customEnabled := x.customEnabled,
@@ -418,15 +440,15 @@ def profileFromPb (x : PbProfile) : Option Profile :=
     ruleListIds := x.ruleListIds, ruleListEnabled := x.ruleListEnabled,
     sbEnabled := x.sbEnabled, sbDangerous := x.sbDangerous, sbNewlyRegistered := x.sbNewlyRegistered,
     access := x.access, blockingMode := bm,
-    ratelimiter := ratelimiterFromPb x.ratelimiter, id := x.id, devIds := x.devIds,
+    ratelimiter := ratelimiterFromPb est x.ratelimiter, id := x.id, devIds := x.devIds,
     ttl := durationFromPb x.ttl, autoDevices := x.autoDevices,
     blockChromePrefetch := x.blockChromePrefetch, blockFirefoxCanary := x.blockFirefoxCanary,
     blockPrivateRelay := x.blockPrivateRelay, deleted := x.deleted, filtering := x.filtering,
     ipLog := x.ipLog, queryLog := x.queryLog }
 
 /-- `toInternal` of the whole cache; `none` if any profile or device fails to convert. -/
-def fromPb (x : PbCache) : Option Cache :=
-  match optAll (x.profiles.map profileFromPb), optAll (x.devices.map deviceFromPb) with
+def fromPb (est : Nat) (x : PbCache) : Option Cache :=
+  match optAll (x.profiles.map (profileFromPb est)), optAll (x.devices.map deviceFromPb) with
   | some ps, some ds =>
     some { syncSec := x.syncSec, syncNsec := x.syncNsec, profiles := ps, devices := ds,
            version := x.version }
@@ -460,10 +482,11 @@ def backendAuth : Option PbAuth → Auth
                   | .unset => .allow
                   | .bcrypt h => .bcrypt h }
 
-/-- `backendpb.(*RateLimitSettings).toInternal`. -/
-def backendRate : Option WireRate → Ratelimiter
+/-- `backendpb.(*RateLimitSettings).toInternal(…, respSzEst)`: the estimate is the one the profile
+storage was created with (`ProfileStorageConfig.ResponseSizeEstimate`). -/
+def backendRate (est : Nat) : Option WireRate → Ratelimiter
   | none => .global
-  | some x => if x.enabled then .default x.cidr x.rps else .global
+  | some x => if x.enabled then .default x.cidr x.rps est else .global
 
 /-- `backendpb.(*AccessSettings).toInternal`; `none` is `access.EmptyProfile`. -/
 def backendAccess : Option WireAccess → Option AccessCfg
